@@ -80,7 +80,7 @@ class Sdr(object):
         req.bytes_to_read = length
 
         rsp = get_sdr_chunk_helper(self.send_message, req,
-                                   self.reserve_device_sdr_repository)
+                                   self.reserve_sdr_repository)
 
         return (rsp.next_record_id, rsp.record_data)
 
@@ -125,7 +125,7 @@ class Sdr(object):
 
     def delete_sdr(self, record_id):
         """Delete the sensor record specified by 'record_id'."""
-        reservation_id = self.reserve_device_sdr_repository()
+        reservation_id = self.reserve_sdr_repository()
         rsp = self.send_message_with_name('DeleteSdr',
                                           reservation_id=reservation_id,
                                           record_id=record_id)
